@@ -2,33 +2,11 @@
 #![allow(dead_code, unused_imports, unused_variables, unused_mut, unexpected_cfgs, unused_must_use, deprecated)]
 include!("common.rs");
 use libfuzzer_sys::fuzz_target;
-use arbitrary::Unstructured;
 
 // structure-aware: the bytes are decoded into (boundary, parts) and judged by the round-trip oracle of the C16 check
 fuzz_target!(|data: &[u8]| {
-    let mut u = Unstructured::new(data);
-    let alphabet: &[u8] = b"ABCDEFGHIJKLMNOPQRSTUVWXYZabcdefghijklmnopqrstuvwxyz0123456789-'()+_,./:=?";
-    let blen = u.int_in_range(1..=70usize).unwrap_or(8);
-    let mut boundary = String::new();
-    for _ in 0..blen { let i = u.int_in_range(0..=alphabet.len() - 1).unwrap_or(0); boundary.push(alphabet[i] as char); }
-    let nparts = u.int_in_range(1..=8usize).unwrap_or(1);
-    let mut parts = vec![];
-    for k in 0..nparts {
-        let nh = u.int_in_range(1..=3usize).unwrap_or(1);
-        let mut headers = vec![];
-        for h in 0..nh {
-            let vlen = u.int_in_range(0..=20usize).unwrap_or(0);
-            let mut value = String::from("v");
-            for _ in 0..vlen { let c = u.int_in_range(0x21u8..=0x7e).unwrap_or(b'x'); value.push(c as char); }
-            headers.push((if h == 0 { "Content-Disposition".to_string() } else { format!("X-H{}", h) }, if h == 0 { format!("form-data; name=\"f{}\"", k) } else { value }));
-        }
-        let blen = u.int_in_range(0..=300usize).unwrap_or(0);
-        let body = u.bytes(blen.min(u.len())).unwrap_or(&[]).to_vec();
-        parts.push(props::c16::PartSpec { headers, body: fw::util::Bytes(body) });
-    }
-    let browser = u.arbitrary::<bool>().unwrap_or(false);
+    let case = props::c16::case_from_fuzz_bytes(data);
     with_ctx("C16", false, |ctx| {
-        let case = if browser { props::c16::Case::Browser { parts, boundary } } else { props::c16::Case::RoundTrip { parts, boundary } };
         let v = props::c16::eval(ctx, &case);
         report(ctx, v);
     });
